@@ -9,8 +9,14 @@ import (
 	"os"
 	"strconv"
 	"sync"
+	"sync/atomic"
 	"time"
 )
+
+// DetReplays counts executions that the explorer ran a second time from their recorded choice
+// list and found identical (same observation log, outcome and verdict). Explorations run on the
+// implementation itself, so these are the traces validated against it.
+var DetReplays atomic.Int64
 
 type Violation struct {
 	Key    string `json:"key"`
@@ -220,6 +226,10 @@ func (r *Rec) Flush(t failer) {
 	r.mu.Lock()
 	defer r.mu.Unlock()
 	r.p.Counters["wall_ms"] = time.Since(r.start).Milliseconds()
+	if n := DetReplays.Swap(0); n > 0 {
+		r.p.Counters["executions_replayed_identically"] += n
+		r.p.TracesValidated += n
+	}
 	out := os.Getenv("VERIF_OUT")
 	b, err := json.Marshal(&r.p)
 	if err != nil {
